@@ -90,14 +90,14 @@ fn c04_cvec_same_verdict() {
     if passed_ref { assert!(k_ref == 5 || k_ref == 9); }
     // every documented-valid set passes all range guards
     if in_range { assert!(passed_ref); }
-    // a set that passes them satisfies every documented constraint except the upper bound 1 of the frequencies
-    if passed_ref { assert!(lo >= 1 && hi >= 1 && lo <= hi && fmin >= 0.0 && fmax >= 0.0 && fmin <= fmax); }
+    // a set that passes them satisfies every documented constraint
+    if passed_ref { assert!(in_range); }
     // otherwise the error is a range error naming a constraint that is really broken, and nothing was compiled
     if !passed_ref {
         assert!(k_ref >= 1 && k_ref <= 4 && reached_ref == 0);
         if k_ref == 1 { assert!(lo == 0 || hi == 0); }
         if k_ref == 2 { assert!(lo > hi); }
-        if k_ref == 3 { assert!(fmin < 0.0 || fmax < 0.0); }
+        if k_ref == 3 { assert!(fmin < 0.0 || fmax < 0.0 || fmin > 1.0 || fmax > 1.0); }   // "must lie in `0..=1`"
         if k_ref == 4 { assert!(fmax < fmin); }
     }
     assert!(reached_ref <= 1);
@@ -118,5 +118,5 @@ fn c04_cvec_same_verdict() {
     kani::cover!(k_ref == 2);
     kani::cover!(k_ref == 3);
     kani::cover!(k_ref == 4);
-    kani::cover!(passed_ref && !in_range);
+    kani::cover!(k_ref == 3 && fmax > 1.0);
 }
